@@ -474,12 +474,32 @@ def check(ctx):
     for w, c in mixed:
         u, m = units[c[2]], c[1]
         tgt = target_of(u)
-        for text, want in (("1 %s | %s" % (w, tgt), m), ("1 %s %s to %s^2" % (w, tgt, tgt), m), ("1 %s %s to %s^2" % (tgt, w, tgt), m)):
+        oth = "m" if u.quantity_vector != units[sorted(by_spelling["m"])[0]].quantity_vector else "s"
+        for text, want in (("1 %s | %s" % (w, tgt), m), ("1 %s %s to %s^2" % (w, tgt, tgt), m), ("1 %s %s to %s^2" % (tgt, w, tgt), m),
+                           # the prefixed spelling FOLLOWED by another unit name, in a literal and in a target
+                           ("1 %s %s to %s %s" % (w, oth, tgt, oth), m), ("(%s) %s %s to %s %s" % (m, tgt, oth, w, oth), Fraction(1))):
             st, v = R.value(text)
             ctx.count("mixed-prefix:" + text, bucket="pipeline/same-unit-two-prefixes")
             val = v.mag if (st == "ok" and isinstance(v, Q) and not any(v.qv.v.xs)) else v
-            if st != "ok" or isinstance(val, bool) or not isinstance(val, (int, Fraction, float)) or not close(Fraction(val), m, Fraction(1, 10**12)):
-                ctx.violation("mixed-prefix:%s" % text, text, str(m), repr(v), "ka: `%s`" % text)
+            if st != "ok" or isinstance(val, bool) or not isinstance(val, (int, Fraction, float)) or not close(Fraction(val), want, Fraction(1, 10**12)):
+                ctx.violation("mixed-prefix:%s" % text, text, str(want), repr(v), "ka: `%s`" % text)
+    # every SHORT prefixed spelling (the ones a new word of the language could collide with) followed by another unit name
+    for w, b_ in spellings:
+        if len(w) > 3 or not b_.startswith("prefix"):
+            continue
+        c = classify(w)
+        if c[0] != "unique" or units[c[2]].offset != 0 or isinstance(units[c[2]].multiple, float) or not one_identifier(w):
+            continue
+        u, m = units[c[2]], c[1]
+        tgt = target_of(u)
+        if tgt is None:
+            continue
+        oth = "m" if u.quantity_vector != units[sorted(by_spelling["m"])[0]].quantity_vector else "s"
+        text = "1 %s %s to %s %s" % (w, oth, tgt, oth)
+        st, v = R.value(text)
+        ctx.count("short-followed:" + text, bucket="pipeline/short-spelling-followed-by-a-unit")
+        if st != "ok" or isinstance(v, bool) or not isinstance(v, (int, Fraction, float)) or not close(Fraction(v), m, Fraction(1, 10**12)):
+            ctx.violation("mixed-prefix:%s" % text, text, str(m), repr(v), "ka: `%s`" % text)
     # ratios through the pipeline
     for a, k, b in ref["ratios"]:
         if R.value("1 " + a)[0] == "ok" and R.value("1 " + b)[0] == "ok":
